@@ -16,6 +16,14 @@
 #include <string>
 #include <vector>
 
+#ifndef EX_NX
+#define EX_NX 0
+#endif
+#if EX_NX
+#define EX_RV_NOEXCEPT noexcept
+#else
+#define EX_RV_NOEXCEPT
+#endif
 namespace ex {
 using unifex::inplace_stop_token;
 
@@ -176,8 +184,22 @@ struct dyn {
     }
     void start() noexcept override { inner->start(); }
   };
+  // value category of the innermost erased connect in progress (leaf connect faults in the EX_NX build only fire when
+  // the leaf itself is being connected as an lvalue, see leaf_node::connect)
+  struct CatScope { bool save; explicit CatScope(bool lv) noexcept; ~CatScope(); };
   template <class R>
   friend op tag_invoke(unifex::tag_t<unifex::connect>, const dyn& d, R&& r) {
+    CatScope cs(true);
+    auto h = std::make_unique<holder<std::decay_t<R>>>((R&&)r);
+    h->inner = d.n->connect(*h);
+    return op{std::move(h)};
+  }
+  // In the EX_NX build ("exprnx" executable) connecting an rvalue dyn is declared noexcept while connecting an lvalue is
+  // not - the profile of a sender that moves without throwing but whose copy may throw - so that every
+  // `if constexpr (is_nothrow_connectable_v<...>)` branch of the adaptors is compiled the other way round.
+  template <class R>
+  friend op tag_invoke(unifex::tag_t<unifex::connect>, dyn&& d, R&& r) EX_RV_NOEXCEPT {
+    CatScope cs(false);
     auto h = std::make_unique<holder<std::decay_t<R>>>((R&&)r);
     h->inner = d.n->connect(*h);
     return op{std::move(h)};
@@ -262,6 +284,8 @@ struct Ctx {
   int start_seq = 0;
   bool defer_sched = false;     // schedule() operations become pending events
   bool lvalue_connect = false;  // erased nodes connect their sender as a non-const lvalue (see snode)
+  bool lvalue_ctx = true;       // the innermost erased connect in progress is an lvalue connect
+  int rv_depth = 0;             // number of rvalue connects of erased nodes in progress (declared noexcept in the EX_NX build)
   int cur_ctx = 0;              // context tag of whoever is running right now (0 = driver / foreign)
   std::map<int, kit::AllocLedger> ledgers;
   int sched_ops_alive = 0;
@@ -273,6 +297,8 @@ struct Ctx {
 };
 
 inline bool lvalue_connect_mode() { return g && g->lvalue_connect; }
+inline dyn::CatScope::CatScope(bool lv) noexcept : save(g ? g->lvalue_ctx : true) { if (g) { g->lvalue_ctx = lv; if (!lv) ++g->rv_depth; } }
+inline dyn::CatScope::~CatScope() { if (g) { if (!g->lvalue_ctx) --g->rv_depth; g->lvalue_ctx = save; } }
 inline Seen observe(rcv_base& r) { return Seen{r.sched_tag(), r.alloc_tag(), r.custom(), r.stop_possible()}; }
 
 // the probe leaf
@@ -330,7 +356,9 @@ struct leaf_node final : node {
   std::unique_ptr<op_base> connect(rcv_base& r) const override {
     auto& L = g->leaf(id);
     int nth = L.connects++;
-    if (g->throw_connect_leaf == id && nth == g->throw_connect_nth) { g->trace += "x" + std::to_string(id) + " "; throw kit::tagged_error{950 + id}; }
+    // (EX_NX: an rvalue connect of an erased node is declared noexcept there, so the leaf may only throw when it is connected
+    // as an lvalue and no rvalue connect of an enclosing erased node is in progress)
+    if (g->throw_connect_leaf == id && nth == g->throw_connect_nth && (!EX_NX || (g->lvalue_ctx && g->rv_depth == 0))) { g->trace += "x" + std::to_string(id) + " "; throw kit::tagged_error{950 + id}; }
     return std::make_unique<opimpl>(id, r);
   }
 };
